@@ -19,10 +19,15 @@ the search goes on, so one defect does not poison the states behind it.
 
 Clauses -> subchecks
     C06.copy.equal / C06.copy.type          a copy equals its source (coordinates, elements, attributes if asked for)
+    C06.copy.equal_containers               ... container by container: element side AND owner side of face_corners,
+                                            cell_corners, cell_faces (tetrahedral, hexahedral and mixed cells)
+    C06.<event>.corners                     ... and no event changes those lists in a mesh it does not produce
     C06.copy.no_shared_state                no mutable object / array memory is reachable from both copy and source
     C06.merge.union / C06.merge.type        disjoint union, indices shifted by the running vertex count, class of
                                             the highest dimension; every element kind (edges, faces, cells), whatever
                                             the setting of the two completion switches of mouette.config at merge time
+    C06.merge.union_corners                 ... whose corner containers describe its own faces and cells (corner k of face
+                                            f is the k-th vertex of f, owned by f; 4 / 6 faces per tet / hex cell)
     C06.merge.union_order                   ... in input order: element k of input i has index k + running element count
     C06.merge.isolation                     editing the result never changes an input, nor the reverse (coordinates)
     C06.merge.no_shared_state               ... for every mutable piece of state: no mutable object / array memory is
@@ -33,12 +38,22 @@ Clauses -> subchecks
     C06.producer.no_shared_state            a producer that derives a mesh from another one shares nothing with it
     C06.merge.same_mesh_twice               ... even when the same mesh is merged twice
     C06.transform.map                       every vertex is moved by exactly the requested map
+    C06.transform.argument_combinations     ... for every combination of its arguments (depth-1 sweep: factors equal /
+                                            two equal / distinct / identity / negative, passed as float / int / numpy
+                                            scalar / keywords, origin omitted / given / zero / the mesh's own vertex,
+                                            translation as Vec / ndarray / own vertex, flatten with dim omitted, ...);
+                                            one report per transform, class = which argument values fail
     C06.transform.each_vertex_once          ... exactly once, whatever way the mesh was produced
     C06.transform.isolation                 ... and nothing else (other live mesh, its attributes, the caller's arrays,
                                             the arguments) changes
     C06.transform.inverse_pair              t/-t, R/R^-1, s/1/s restore the coordinates
     C06.normalize.box                       box centred with largest extent 2 / anchored at 0 with largest extent 1
     C06.<event>.answers                     the call does not raise
+
+Unit-of-length deviation (input class suffix ":unit=2^e"): the same searches with every coordinate handed out by the
+producer multiplied by 2**e (exact, in place, storage layout untouched), points and vectors among the arguments
+expressed in that unit; coordinates are read back in that unit, so the expectations (exact images, relative
+tolerances, the box after normalising) are the same at every unit.
 """
 from __future__ import annotations
 import math, os, shutil, tempfile
@@ -52,11 +67,14 @@ TECHNIQUE = "explicit-state BFS over histories of copy/merge/transform calls on 
 RULE = ("explicit-state BFS over all histories of copy (4 flag combinations) / merge([a,b]) / merge([a,a]) / merge([a,b,a]) / "
         "translate / rotate (matrix, Rotation, Euler list and tuple) / scale / scale_xyz / normalize (both modes) / fit_into_unit_cube / "
         "translate_to_origin / flatten / connectivity query / edit of element rows (undone), applied to any mesh of a live set "
-        "of <= 3 meshes, started from each of the 69 producer configurations (12 loader files, from_arrays x 6, raw containers "
-        "x 4 incl. a surface with a free-standing declared edge and a volume with a free-standing declared face, 34 procedural, "
-        "merge, 8 subdivisions, 3 boundary extractions, reorder_vertices) and from 8 pairs of them; every merge event is "
+        "of <= 3 meshes, started from each of the 74 producer configurations (13 loader files incl. a hexahedral .mesh, "
+        "from_arrays x 7 incl. two hexahedra, raw containers x 5 incl. a surface with a free-standing declared edge, a volume "
+        "with a free-standing declared face and a volume with one hexahedral and one tetrahedral cell, 35 procedural, "
+        "merge x 2 (polyline+surface, tetrahedron+hexahedron), 8 subdivisions, 3 boundary extractions, reorder_vertices) and from 8 pairs of them; every merge event is "
         "repeated under complete_edges_from_faces=False and under complete_faces_from_cells=False; plus a sweep of the 24 "
-        "axis rotations in every argument form with their inverses; a case is one distinct (canonical dump of the real "
+        "axis rotations in every argument form with their inverses; plus, per producer, a depth-1 sweep over 144 argument "
+        "combinations of the transforms (each followed by its inverse) and the same searches at two other units of length "
+        "(coordinates x 2^-50, x 2^50); a case is one distinct (canonical dump of the real "
         "meshes and caller arrays incl. aliasing pattern, model) state reached by >= 1 event")
 ASSUMPTIONS = [
     "transform parameters: t in {(1,0,0),(-1,0,0),(1/2,-2,4),(-1/2,2,-4)}, s in {2,1/2} about 0 and about (1,0,-1), "
@@ -87,16 +105,36 @@ ASSUMPTIONS = [
     "binary STL (native reader) is not used as a producer; split_edge is not used as a producer (its result is not a "
     "valid polyline on the current tree, C13)",
     "after a reported violation the models are re-synchronised with the real objects and the search continues",
+    "argument sweep: scale factors {2, 1/2, -1, 1, 4, 1/4}, integer-valued ones also as python int / numpy.int64, 2 and 1/2 "
+    "also as numpy.float64; scale_xyz triples (2,1/2,4), (2,2,1/2), (2,2,2), (1/2,1/2,1/2), (-1,-1,-1), (1,1,1), (1,2,1) "
+    "and inverses, equal ones also as ints / numpy ints, (1,2,1) and (1,1,1) also with only the factors != 1 passed by "
+    "keyword; each with the origin omitted, a fresh Vec (1,0,-1), a fresh Vec(0,0,0), and the mesh's own vertex object "
+    "n//2; translation as Vec, as numpy array and as the mesh's own vertex object (expected: every vertex moves by the "
+    "value that vertex had when the call was made); rotation Rz(90) / Rx(90) / generic as matrix, Rotation, Euler list, "
+    "Euler tuple about no origin / (1,2,-1) / own vertex; flatten with dim 0,1,2, numpy.int64(1) and omitted (expected: "
+    "the dimension of smallest variance, skipped when the two smallest variances are within 1e-6 relative); on the "
+    "first and the last mesh the producer hands out; ints / numpy scalars / arrays are accepted wherever a float / Vec "
+    "is documented because the documented formula is defined for them",
+    "unit-of-length deviation: applied by the harness to the producer's output (each base buffer of the vertex storage "
+    "multiplied once, in place, by 2**e: exact), not by asking the producer for another size; skipped (counted as unit 1) "
+    "when a vertex is not held in a writeable float array; a normalised mesh is read in unit 1; a merge result is read "
+    "in the largest unit of its inputs",
+    "corner containers are read through their _elem / _adj lists (what save() and RawMeshData use); for a merge result "
+    "only internal consistency with its own faces / cells is demanded, an empty cell_faces container is accepted",
 ]
 BOUNDS = {
-    "quick": "69 producer configurations: all histories of <= 2 events (full menu; reduced menu for the 13 configurations "
+    "quick": "74 producer configurations: all histories of <= 2 events (full menu; reduced menu for the 13 configurations "
              "with >= 12 vertices or 2-3 starting meshes); 9 sharing-prone / one-per-class configurations <= 3 events "
              "(reduced menu, mini menu for the 2 boundary configurations); 8 producer pairs <= 2 events (reduced menu); rotation sweep "
-             "(23 rotations x 3 argument forms, each followed by its inverse) on 4 producers; live set <= 3 meshes",
-    "thorough": "69 producer configurations: all histories of <= 2 events (full menu) and <= 3 events (reduced menu; full "
-                "menu for 8 sharing-prone / one-per-class configurations); 60 configurations (< 12 vertices, one starting mesh, "
+             "(23 rotations x 3 argument forms, each followed by its inverse) on 4 producers; argument sweep (144 combinations + "
+             "inverses) on every producer at unit 1 and its 42 form-free classes at units 2^-50 and 2^50; 6 sharing-prone "
+             "configurations <= 2 events (reduced / mini menu) at units 2^-50 and 2^50; live set <= 3 meshes",
+    "thorough": "74 producer configurations: all histories of <= 2 events (full menu) and <= 3 events (reduced menu; full "
+                "menu for 8 sharing-prone / one-per-class configurations); 64 configurations (< 12 vertices, one starting mesh, "
                 "plus the 3 boundary configurations and reorder_vertices) <= 4 events (mini menu); 4 sharing-prone configurations <= 4 events "
-                "(reduced menu); 8 producer pairs <= 3 events (reduced menu); rotation sweep on 12 producers; live set <= 3 meshes; "
+                "(reduced menu); 8 producer pairs <= 3 events (reduced menu); rotation sweep on 12 producers; argument sweep (144 combinations) on every producer at units 1, 2^-50, 2^50; "
+                "every configuration <= 2 events (reduced menu) and 14 configurations <= 3 events (mini menu) at units 2^-50 and "
+                "2^50; live set <= 3 meshes; "
                 "searches with > 10^4 transitions are split by their first event into independent shards",
 }
 
@@ -505,7 +543,7 @@ CELL_FACES = {4: 4, 8: 6}
 def union_corners(z):
     """The corner containers of a merge result describe ITS faces and cells: face corner k of face f is the k-th vertex
     of f and is owned by f; likewise for cell corners; every (cell, face) incidence names a face whose vertices are
-    vertices of that cell, owners in non-decreasing order, 4 per tetrahedron / 6 per hexahedron (an empty cell_faces
+    vertices of that cell, 4 distinct ones per tetrahedron / 6 per hexahedron (an empty cell_faces
     container is accepted: the faces of the cells need not be there).  -> [(what differs, detail)]"""
     el, co = read_elements(z), read_corners(z)
     out = []
@@ -521,7 +559,7 @@ def union_corners(z):
     if "cells" in el and (co.get("cell_faces:element") or co.get("cell_faces:owner")):
         fe, fo = co["cell_faces:element"], co["cell_faces:owner"]
         F, C = el.get("faces", []), el["cells"]
-        okc = len(fe) == len(fo) and fo == sorted(fo) and all(0 <= f < len(F) for f in fe) and all(0 <= c < len(C) for c in fo)
+        okc = len(fe) == len(fo) and all(0 <= f < len(F) for f in fe) and all(0 <= c < len(C) for c in fo)
         if okc:
             okc = all(set(F[f]) <= set(C[c]) for f, c in zip(fe, fo))
         if okc:
